@@ -30,7 +30,14 @@
                with LastLogID = the value read, new subscription channel + persister
      StopReq   StopPipeline / Manager.Stop: handler.Shutdown puts the signal in stopChannel
      Halt      Run consumes the stop signal (possible in the top-level select, during Accept and
-               in the retry wait; NOT while blocked in the hand-off) and returns
+               in the retry wait; NOT while blocked in the hand-off) and returns.  In the repaired
+               code (wt = true, fixes/repl-01) the goroutine that ran Run closes the subscription
+               at once and stopPipeline keeps waiting (HDrain) until the persister has stored what
+               it holds and exited:
+     StopDone  ... that wait ends (only possible once the persister holds nothing): StopPipeline
+               returns / ResetPipeline clears last_log_id and starts the new handler.
+               Before the repair (wt = false) Halt completed the operation immediately and the
+               persister's value became a late store.
      ResetReq  ResetPipeline: not started -> UpdatePipeline(last_log_id = NULL) only;
                started -> Shutdown first (state MResetting); its Halt then clears last_log_id and
                starts a new handler from the row RETURNED by UpdatePipeline (LastLogID = nil)
@@ -46,12 +53,12 @@ From Coq Require Import List ZArith Lia Bool.
 Import ListNotations.
 Open Scope Z_scope.
 
-Inductive hstate := HNone | HIdle | HPush (hi : Z) | HSend.
+Inductive hstate := HNone | HIdle | HPush (hi : Z) | HSend | HDrain.
 Inductive mstate := MIdle | MStopping | MResetting.
 
 Inductive event :=
 | Produce (n : Z) | Fetch | PushOk | PushFail | Handoff | Persist | LatePersist (k : nat) | LateAccept (k : nat)
-| StopReq | Halt | ResetReq | Start | Crash.
+| StopReq | Halt | StopDone | ResetReq | Start | Crash.
 
 Inductive output :=
 | OFetch (cursor n : Z)            (* ListLogs(id > cursor) returned n logs *)
@@ -64,10 +71,13 @@ Inductive output :=
 | ORefused.                        (* the event is not enabled in this state; state unchanged *)
 
 Record state := mk {
+  wt : bool;                       (* stopPipeline waits for the persister (true: the repaired code,
+                                      fixes/repl-01; false: the code before the repair) *)
   psz : Z;                         (* LogsPageSize *)
   logs : Z;                        (* the ledger holds logs 1..logs *)
   stored : Z;                      (* _system.pipelines.last_log_id (0 = NULL) *)
-  hnd : hstate;                    (* HNone: not in m.pipelines *)
+  hnd : hstate;                    (* HNone: not in m.pipelines; HDrain: Run has returned, stopPipeline
+                                      is waiting for the persister to store what it holds and exit *)
   cur : Z;                         (* p.pipeline.LastLogID of the current handler *)
   pers : option Z;                 (* value held by the current persister *)
   late : list (nat * Z);           (* values held by persisters of halted handlers, tagged with [gen] *)
@@ -86,7 +96,10 @@ Record state := mk {
 }.
 
 Definition init (page_size : Z) : state :=
-  mk page_size 0 0 HNone 0 None [] [] MIdle 0 false 0 [(0, [])] 0 0 [].
+  mk true page_size 0 0 HNone 0 None [] [] MIdle 0 false 0 [(0, [])] 0 0 [].
+(* the code before fixes/repl-01: stopPipeline returns as soon as Run has returned *)
+Definition init_unrepaired (page_size : Z) : state :=
+  mk false page_size 0 0 HNone 0 None [] [] MIdle 0 false 0 [(0, [])] 0 0 [].
 
 Fixpoint ids_from (lo : Z) (n : nat) : list Z :=
   match n with O => [] | S k => lo :: ids_from (lo + 1) k end.
@@ -120,24 +133,24 @@ Definition push_late (g : nat) (p : option Z) (l : list (nat * Z)) :=
 
 Definition step (s : state) (e : event) : state * list output :=
   match s with
-  | mk ps lg st h c pe la lc m g sl r ep ak ar ds =>
+  | mk w ps lg st h c pe la lc m g sl r ep ak ar ds =>
     let refused := (s, [ORefused]) in
     match e with
     | Produce n =>
-        (mk ps (lg + Z.max 0 n) st h c pe la lc m g sl r ep ak ar ds, [])
+        (mk w ps (lg + Z.max 0 n) st h c pe la lc m g sl r ep ak ar ds, [])
     | Fetch =>
         match h with
         | HIdle =>
             let k := Z.min (Z.max 1 ps) (lg - c) in
             if k <=? 0 then (s, [OFetch c 0])
-            else (mk ps lg st (HPush (c + k)) c pe la lc m g sl r ep ak ar ds, [OFetch c k])
+            else (mk w ps lg st (HPush (c + k)) c pe la lc m g sl r ep ak ar ds, [OFetch c k])
         | _ => refused
         end
     | PushOk =>
         match h with
         | HPush hi =>
             let b := page c hi in
-            (mk ps lg st HSend hi pe la lc m g sl r (add_batch b ep) (Z.max ak hi) (Z.max ar hi) (ds ++ b),
+            (mk w ps lg st HSend hi pe la lc m g sl r (add_batch b ep) (Z.max ak hi) (Z.max ar hi) (ds ++ b),
              [OBatch b])
         | _ => refused
         end
@@ -148,63 +161,83 @@ Definition step (s : state) (e : event) : state * list output :=
         end
     | Handoff =>
         match h, pe with
-        | HSend, None => (mk ps lg st HIdle c (Some c) la lc m g sl r ep ak ar ds, [])
+        | HSend, None => (mk w ps lg st HIdle c (Some c) la lc m g sl r ep ak ar ds, [])
         | _, _ => refused
         end
     | Persist =>
         match h, pe with
         | HNone, _ => refused
-        | _, Some v => (mk ps lg v h c None la lc m g sl r ep ak ar ds, [OStore v false])
+        | _, Some v => (mk w ps lg v h c None la lc m g sl r ep ak ar ds, [OStore v false])
         | _, None => refused
         end
     | LatePersist k =>
         match nth_error la k with
         | Some (g0, v) =>
             let old := Nat.ltb g0 g in
-            (mk ps lg v h c pe (remove_nth k la) lc m g (sl || old) r ep ak ar ds, [OStore v old])
+            (mk w ps lg v h c pe (remove_nth k la) lc m g (sl || old) r ep ak ar ds, [OStore v old])
         | None => refused
         end
     | LateAccept k =>
         match nth_error lc k with
         | Some (c0, hi) =>
             let b := page c0 hi in
-            (mk ps lg st h c pe la (remove_nth k lc) m g sl r (add_stray (c0, [b]) ep) (Z.max ak hi) ar (ds ++ b),
+            (mk w ps lg st h c pe la (remove_nth k lc) m g sl r (add_stray (c0, [b]) ep) (Z.max ak hi) ar (ds ++ b),
              [OBatch b])
         | None => refused
         end
     | StopReq =>
         match m, h with
         | MIdle, HNone => refused
-        | MIdle, _ => (mk ps lg st h c pe la lc MStopping g sl r ep ak ar ds, [])
+        | MIdle, _ => (mk w ps lg st h c pe la lc MStopping g sl r ep ak ar ds, [])
         | _, _ => refused
         end
     | ResetReq =>
         match m, h with
-        | MIdle, HNone => (mk ps lg 0 h c pe la lc m (S g) sl r ep ak 0 [], [OClear])
-        | MIdle, _ => (mk ps lg st h c pe la lc MResetting g sl r ep ak ar ds, [])
+        | MIdle, HNone => (mk w ps lg 0 h c pe la lc m (S g) sl r ep ak 0 [], [OClear])
+        | MIdle, _ => (mk w ps lg st h c pe la lc MResetting g sl r ep ak ar ds, [])
         | _, _ => refused
         end
     | Halt =>
         match h with
         | HIdle | HPush _ =>
             let lc' := match h with HPush hi => (c, hi) :: lc | _ => lc end in
+            if w then
+              (* repaired: Run returns and closes the subscription; the operation goes on waiting *)
+              match m with
+              | MIdle => refused
+              | _ => (mk w ps lg st HDrain c pe la lc' m g sl r ep ak ar ds, [])
+              end
+            else
             match m with
             | MIdle => refused
             | MStopping =>
-                (mk ps lg st HNone c None (push_late g pe la) lc' MIdle g sl r ep ak ar ds, [OHalt])
+                (mk w ps lg st HNone c None (push_late g pe la) lc' MIdle g sl r ep ak ar ds, [OHalt])
             | MResetting =>
-                (mk ps lg 0 HIdle 0 None (push_late g pe la) lc' MIdle (S g) sl 0 ((0, []) :: ep) ak 0 [],
+                (mk w ps lg 0 HIdle 0 None (push_late g pe la) lc' MIdle (S g) sl 0 ((0, []) :: ep) ak 0 [],
                  [OHalt; OClear; OResume 0])
             end
         | _ => refused
         end
+    | StopDone =>
+        match h, pe with
+        | HDrain, None =>
+            match m with
+            | MIdle => refused
+            | MStopping =>
+                (mk w ps lg st HNone c None la lc MIdle g sl r ep ak ar ds, [OHalt])
+            | MResetting =>
+                (mk w ps lg 0 HIdle 0 None la lc MIdle (S g) sl 0 ((0, []) :: ep) ak 0 [],
+                 [OHalt; OClear; OResume 0])
+            end
+        | _, _ => refused
+        end
     | Start =>
         match m, h with
-        | MIdle, HNone => (mk ps lg st HIdle st None la lc m g sl st ((st, []) :: ep) ak ar ds, [OResume st])
+        | MIdle, HNone => (mk w ps lg st HIdle st None la lc m g sl st ((st, []) :: ep) ak ar ds, [OResume st])
         | _, _ => refused
         end
     | Crash =>
-        (mk ps lg st HNone c None [] [] MIdle g sl r ep ak ar ds, [OHalt])
+        (mk w ps lg st HNone c None [] [] MIdle g sl r ep ak ar ds, [OHalt])
     end
   end.
 
@@ -228,6 +261,7 @@ Definition delivered (s : state) : list Z :=
 Definition started (s : state) : bool :=
   match hnd s, mgr s with
   | HNone, _ => false
+  | HDrain, _ => false
   | _, MIdle => true
   | _, _ => false
   end.
@@ -236,7 +270,7 @@ Definition started (s : state) : bool :=
    exporter is healthy: let the persister finish, hand the last id over, fetch, push *)
 Definition progress_sched (s : state) : list event :=
   match hnd s with
-  | HNone => []
+  | HNone | HDrain => []
   | HIdle => [Fetch; PushOk]
   | HPush _ => [PushOk]
   | HSend => match pers s with
